@@ -430,6 +430,12 @@ impl MutableBuffer {
                 // Safety: data was allocated with layout
                 unsafe { std::alloc::dealloc(self.as_mut_ptr(), self.layout) };
                 self.layout = new_layout;
+                #[cfg(feature = "pool")]
+                {
+                    if let Some(reservation) = self.reservation.lock().unwrap().as_mut() {
+                        reservation.resize(0);
+                    }
+                }
             }
             return Ok(());
         }
